@@ -25,6 +25,7 @@ import (
 	"strconv"
 	"strings"
 	"sync"
+	"sync/atomic"
 	"time"
 
 	"istio.io/istio/pilot/pkg/model"
@@ -42,6 +43,7 @@ type thr struct {
 	orphan   bool // its write landed on a shard set that was no longer linked
 	hid      int  // index of its operation in hist
 	at       string // the gate it is parked at
+	goid     atomic.Uint64
 	isDelete bool   // runs DeleteShard / PruneShard
 	blocked  bool   // started while a delete held the index lock; has not reached a gate yet
 	// the entry this goroutine created itself (nil if it found one)
@@ -75,7 +77,47 @@ type schedSUT struct {
 	notAtomic []string
 }
 
-const blockedWait = 4 * time.Millisecond
+// lockWait reports whether goroutine `id` is waiting for a mutex (its state in the runtime's goroutine
+// dump: "sync.RWMutex.RLock", "sync.RWMutex.Lock", "sync.Mutex.Lock" or, on older runtimes, "semacquire").
+// A positive observation instead of "nothing happened for a few milliseconds": independent of machine load.
+func lockWait(id uint64) bool {
+	buf := make([]byte, 1<<16)
+	buf = buf[:runtime.Stack(buf, true)]
+	head := []byte("goroutine " + strconv.FormatUint(id, 10) + " [")
+	i := bytes.Index(buf, head)
+	if i < 0 {
+		return false
+	}
+	rest := buf[i+len(head):]
+	if j := bytes.IndexByte(rest, ']'); j > 0 {
+		st := string(rest[:j])
+		return strings.Contains(st, "Mutex") || strings.Contains(st, "semacquire")
+	}
+	return false
+}
+
+// settle waits until goroutine t has either reached a gate / finished (returns "parked" / "done", with the
+// value for "done" in *p) or is observed waiting for a lock ("blocked").
+func (s *schedSUT) settle(t *thr, p *string) string {
+	deadline := time.Now().Add(gateTimeout)
+	for {
+		select {
+		case <-t.parked:
+			return "parked"
+		case v := <-t.done:
+			*p = v
+			return "done"
+		default:
+		}
+		if id := t.goid.Load(); id != 0 && lockWait(id) {
+			return "blocked"
+		}
+		if time.Now().After(deadline) {
+			return "timeout"
+		}
+		time.Sleep(100 * time.Microsecond)
+	}
+}
 
 // goid returns the id of the calling goroutine (from its stack header "goroutine N [").
 func goid() uint64 {
@@ -98,6 +140,7 @@ func (s *schedSUT) self() *thr {
 
 func (s *schedSUT) spawn(t *thr, f func() string) {
 	go func() {
+		t.goid.Store(goid())
 		s.goids.Store(goid(), t)
 		defer func() {
 			if r := recover(); r != nil {
@@ -225,11 +268,14 @@ func (s *schedSUT) afterDelete(t *thr) string {
 			if !w.blocked {
 				continue
 			}
-			select {
-			case <-w.parked:
+			var p string
+			switch s.settle(w, &p) {
+			case "parked":
 				w.blocked = false
 				early = append(early, w.name)
-			case <-time.After(blockedWait / 2):
+			case "done":
+				w.blocked, w.finished = false, true
+				early = append(early, w.name)
 			}
 		}
 		if len(early) > 0 {
@@ -316,19 +362,21 @@ func (s *schedSUT) apply(f []string) (out string) {
 			// a DeleteShard / PruneShard holds the index lock: the lookup of this update must wait for it
 			t.blocked = true
 			s.spawn(t, run)
-			select {
-			case <-t.parked:
+			var p string
+			switch s.settle(t, &p) {
+			case "parked":
 				t.blocked = false
 				s.notAtomic = append(s.notAtomic, t.name)
 				return "not-blocked parked"
-			case p := <-t.done:
+			case "done":
 				t.blocked, t.finished = false, true
 				s.hist[t.hid].fin, s.hist[t.hid].open = s.line, false
 				if len(o.eps) > 0 {
 					s.notAtomic = append(s.notAtomic, t.name)
 				}
 				return "not-blocked done " + p
-			case <-time.After(blockedWait):
+			case "timeout":
+				return "timeout"
 			}
 			s.waiting = append(s.waiting, t)
 			return "blocked"
